@@ -648,6 +648,25 @@ class Flow:
                     nz = bv.nonzero()
                     if nz is not None and self._useful(nz):
                         return (nz, dnf_not(nz)) if op == '!=' else (dnf_not(nz), nz)
+                # general bit-vector equality (x & m) == m with a mask m that is itself selected by a condition
+                if is_intlike(l.get('t', '')) and is_intlike(r.get('t', '')) and l.get('t') != 'bool' and \
+                        r.get('t') != 'bool' and 'cv' not in r and 'cv' not in l:
+                    lb = self.eval_bv(n['ch'][0], env)
+                    rb = self.eval_bv(n['ch'][1], env)
+                    diff = [(a, b) for a, b in zip(lb.bits, rb.bits) if a != b]
+                    opaque = any(lt[0].startswith('u:') for a, b in diff for d_ in (a, b) if d_ not in (TRUE, FALSE)
+                                 for c_ in d_ for lt in c_)
+                    if diff and len(diff) <= 8 and not opaque:
+                        eq = TRUE
+                        for a, b in diff:
+                            na, nb = dnf_not(a), dnf_not(b)
+                            x = None if na is None or nb is None else dnf_or(dnf_and(a, b), dnf_and(na, nb))
+                            eq = None if (eq is None or x is None) else dnf_and(eq, x)
+                            if eq is None:
+                                break
+                        if eq is not None and self._useful(eq):
+                            neq = dnf_not(eq)
+                            return (eq, neq) if op == '==' else (neq, eq)
         if k == 'CXXBoolLiteralExpr':
             return (TRUE, FALSE) if n['v'] == '1' else (FALSE, TRUE)
         if 'cv' in n:
